@@ -294,6 +294,24 @@ func (state *RuntimeState) u2fSignRequest(w http.ResponseWriter, r *http.Request
 	}
 }
 
+// consumeLoginChallenge removes the pending login challenge of username if it is
+// still the one the caller verified a response against. It returns false when
+// another request has consumed (or replaced) that challenge in the meantime: the
+// lookup and the removal of a challenge are separate critical sections, so two
+// requests presenting the same signed response at the same moment would
+// otherwise both be honoured.
+func (state *RuntimeState) consumeLoginChallenge(username string, used localUserData) bool {
+	state.Mutex.Lock()
+	defer state.Mutex.Unlock()
+	current, ok := state.localAuthData[username]
+	if !ok || current.U2fAuthChallenge != used.U2fAuthChallenge ||
+		current.WebAuthnChallenge != used.WebAuthnChallenge {
+		return false
+	}
+	delete(state.localAuthData, username)
+	return true
+}
+
 const u2fSignResponsePath = "/u2f/SignResponse"
 
 func (state *RuntimeState) u2fSignResponse(w http.ResponseWriter, r *http.Request) {
@@ -372,9 +390,10 @@ func (state *RuntimeState) u2fSignResponse(w http.ResponseWriter, r *http.Reques
 			u2fReg.Counter = newCounter
 			profile.U2fAuthData[i] = u2fReg
 			//profile.U2fAuthChallenge = nil
-			state.Mutex.Lock()
-			delete(state.localAuthData, authData.Username)
-			state.Mutex.Unlock()
+			if !state.consumeLoginChallenge(authData.Username, localAuth) {
+				http.Error(w, "challenge missing", http.StatusBadRequest)
+				return
+			}
 
 			eventNotifier.PublishAuthEvent(eventmon.AuthTypeU2F, authData.Username)
 			_, isXHR := r.Header["X-Requested-With"]
@@ -409,9 +428,10 @@ func (state *RuntimeState) u2fSignResponse(w http.ResponseWriter, r *http.Reques
 			metricLogAuthOperation(getClientType(r), proto.AuthTypeU2F, true)
 			logger.Debugf(0, "newCounter: %d", newCounter)
 			// a challenge is good for one login only
-			state.Mutex.Lock()
-			delete(state.localAuthData, authData.Username)
-			state.Mutex.Unlock()
+			if !state.consumeLoginChallenge(authData.Username, localAuth) {
+				http.Error(w, "challenge missing", http.StatusBadRequest)
+				return
+			}
 			eventNotifier.PublishAuthEvent(eventmon.AuthTypeU2F, authData.Username)
 			_, isXHR := r.Header["X-Requested-With"]
 			if isXHR {
